@@ -1,0 +1,17 @@
+//go:build verif
+
+package local
+
+// VerifFreeBlockOffsets exposes, for verification harnesses only, which
+// blocks a block device backed BlockAllocator currently considers free
+// (offsets in sectors), together with the number of sectors per block
+// and the sector size. It returns false for other kinds of allocators.
+func VerifFreeBlockOffsets(allocator BlockAllocator) (freeOffsetsSectors []int64, blockSectorCount int64, sectorSizeBytes int, ok bool) {
+	pa, ok := allocator.(*blockDeviceBackedBlockAllocator)
+	if !ok {
+		return nil, 0, 0, false
+	}
+	pa.lock.Lock()
+	defer pa.lock.Unlock()
+	return append([]int64(nil), pa.freeOffsets...), pa.blockSectorCount, pa.sectorSizeBytes, true
+}
